@@ -142,7 +142,7 @@ package server
 //@ requires [C05] srv != nil && srv.sessionStore != nil && srv.subscriptionsDB != nil && srv.clients != nil && srv.offlineClients != nil && srv.queueStore != nil
 //@ modifies map(srv.clients), map(srv.offlineClients), map(srv.queueStore), ghost(Q.$cleans), ghost(S.$removes), ghost(S.$lastRemoved), ghost(S.$has), ghost(D.$unsubAlls), ghost(D.$lastUnsubAll)
 //@ ensures [C05] !has(srv.clients, clientID) && !has(srv.offlineClients, clientID) && srv.queueStore[clientID] == nil
-//@ ensures [C05] forall k string :: k != clientID ==> has(srv.clients, k) == old(has(srv.clients, k)) && srv.clients[k] == old(srv.clients[k]) && has(srv.offlineClients, k) == old(has(srv.offlineClients, k)) && has(srv.queueStore, k) == old(has(srv.queueStore, k))
+//@ ensures [C05] forall k string :: k != clientID ==> has(srv.clients, k) == old(has(srv.clients, k)) && srv.clients[k] == old(srv.clients[k]) && has(srv.offlineClients, k) == old(has(srv.offlineClients, k)) && srv.offlineClients[k] == old(srv.offlineClients[k]) && has(srv.queueStore, k) == old(has(srv.queueStore, k))
 //@ ensures [C05] S.$removes == old(S.$removes) + 1 && S.$lastRemoved == clientID && D.$unsubAlls == old(D.$unsubAlls) + 1 && D.$lastUnsubAll == clientID
 //@ ensures [C05] old(Q) != nil ==> old(Q).$cleans == old(old(Q).$cleans) + 1
 
@@ -160,6 +160,8 @@ package server
 //@ ensures [C05] !has(srv.clients, clientID) && !has(srv.offlineClients, clientID) && srv.queueStore[clientID] == nil
 //@ ensures [C05] S.$removes == old(S.$removes) + 1 && S.$lastRemoved == clientID
 //@ ensures [C05 C14] old(H.OnSessionTerminated) != nil ==> H.$st == old(H.$st) + 1 && H.$stID == clientID && H.$stReason == reason
+// no other client's place in the offline table changes
+//@ ensures [C05] forall c string :: c != clientID ==> has(srv.offlineClients, c) == old(has(srv.offlineClients, c)) && srv.offlineClients[c] == old(srv.offlineClients[c])
 
 // unregisterClient — the end of a network connection. With sess the stored session (nil: none), keep = "the
 // session outlives the connection" (not force-removed and expiry != 0, the expiry possibly updated by a v5
@@ -220,3 +222,19 @@ package server
 //@ ensures [C05] err != nil ==> oldSession == nil
 //@ ensures [C05] err == nil ==> (forall k string :: has(srv.willMessage, k) ==> srv.willMessage[k] != nil)
 //@ loop 1 invariant srv.clients != nil && c.opts != nil && c.rwc != nil && srv.sessionStore != nil
+
+// sessionExpireCheck (every 20 s): a session is terminated by the checker only if it is offline and its deadline has
+// passed — a connected client's session, or one whose lifetime has not run out, is never touched — and always with the
+// reason "expired"; every offline session it visits whose deadline has passed is terminated, once.
+//@ func (*server).sessionExpireCheck
+//@ props C05
+//@ requires [C05] srv != nil && srv.sessionStore != nil && srv.subscriptionsDB != nil && srv.statsManager != nil && srv.clients != nil && srv.offlineClients != nil && srv.queueStore != nil && smOK(srv.statsManager)
+//@ modifies heap, ghostall(queue.Store.$cleans), ghost(srv.sessionStore.$removes), ghost(srv.sessionStore.$lastRemoved), ghost(srv.sessionStore.$has), ghost(srv.subscriptionsDB.$unsubAlls), ghost(srv.subscriptionsDB.$lastUnsubAll), ghost(srv.hooks.$st), ghost(srv.hooks.$stID), ghost(srv.hooks.$stReason)
+//@ loop 1 invariant srv != nil && srv == old(srv) && srv.sessionStore == old(srv.sessionStore) && srv.sessionStore != nil && srv.subscriptionsDB != nil && srv.statsManager != nil && srv.clients != nil && srv.offlineClients != nil && srv.offlineClients == old(srv.offlineClients) && srv.queueStore != nil && smOK(srv.statsManager) && srv.subscriptionsDB == old(srv.subscriptionsDB)
+// only sessions that were offline with a passed deadline are gone from the offline table; nothing is added to it
+//@ loop 1 invariant forall c string :: has(srv.offlineClients, c) ==> old(has(srv.offlineClients, c)) && srv.offlineClients[c] == old(srv.offlineClients[c])
+//@ loop 1 invariant forall c string :: old(has(srv.offlineClients, c)) && !has(srv.offlineClients, c) ==> old(srv.offlineClients[c]) < now
+//@ call server.sessionTerminatedLocked#1 assert [C05] clientID == cid && has(srv.offlineClients, cid) && srv.offlineClients[cid] == expiredTime && expiredTime < now && reason == ExpiredTermination
+//@ loop 1 step [C05] called(server.sessionTerminatedLocked#1) == at(iter1, called(server.sessionTerminatedLocked#1)) + (expiredTime < now ? 1 : 0)
+//@ ensures [C05] forall c string :: has(srv.offlineClients, c) ==> old(has(srv.offlineClients, c)) && srv.offlineClients[c] == old(srv.offlineClients[c])
+//@ ensures [C05] forall c string :: old(has(srv.offlineClients, c)) && !has(srv.offlineClients, c) ==> old(srv.offlineClients[c]) < now
